@@ -112,6 +112,17 @@ Theorem C17_send_datagram_after_close : forall a e, api_call (fanout a e) CSendD
 Proof. exact send_datagram_after_close. Qed.
 Print Assumptions C17_send_datagram_after_close.
 
+(** the datagram queue is closed whatever the own Config.EnableDatagrams says (SendDatagram is gated on the PEER's
+    support): a fan-out that skips it on a send-only connection — seeded change C17-f — lets a later SendDatagram
+    succeed while the queue has room and park for ever when its 32 slots are full *)
+Theorem C17_dg_close_must_not_depend_on_own_flag : forall e room,
+  let a := {| a_mapErr := None; a_dgErr := None; a_rstreams := []; a_sstreams := []; a_canOpen := false;
+              a_canAccept := false; a_rcvQueued := false; a_sendRoom := room |} in
+  api_call (fanout_dg_if_enabled false a e) CSendDatagram = (if room then ROk else RBlock) /\
+  api_call (fanout a e) CSendDatagram = RErr e.
+Proof. exact dg_close_must_not_depend_on_own_flag. Qed.
+Print Assumptions C17_dg_close_must_not_depend_on_own_flag.
+
 (** regression: the former counterexample (queue with room, closed with an idle timeout) *)
 Example C17_send_datagram_after_close_regression :
   api_call (fanout {| a_mapErr := None; a_dgErr := None; a_rstreams := []; a_sstreams := []; a_canOpen := false;
